@@ -12,6 +12,7 @@ import (
 	"os"
 	"path/filepath"
 	"regexp"
+	"runtime"
 	"strings"
 	"sync"
 	"sync/atomic"
@@ -116,6 +117,8 @@ type Sim struct {
 
 	Events []Event
 	Fired  []Fault
+	// OutOfScope counts planned panics that were not raised because the site is copy plumbing.
+	OutOfScope int
 
 	mu       sync.Mutex
 	occ      map[string]int
@@ -134,6 +137,48 @@ type fileState struct {
 	abs   string
 	isDir bool
 	id    int
+	stack []string // functions of the module under test on the stack when the file was opened, outermost first
+}
+
+// ModulePrefix selects the frames that count as "code of the operation".
+var ModulePrefix = "github.com/pdfcpu/pdfcpu/"
+
+// moduleStack returns the module-under-test functions on the current stack, outermost first.
+func moduleStack() []string {
+	pc := make([]uintptr, 96)
+	n := runtime.Callers(0, pc)
+	frames := runtime.CallersFrames(pc[:n])
+	var out []string
+	for {
+		f, more := frames.Next()
+		if strings.HasPrefix(f.Function, ModulePrefix) {
+			out = append(out, f.Function)
+		}
+		if !more {
+			break
+		}
+	}
+	for i, j := 0, len(out)-1; i < j; i, j = i+1, j-1 {
+		out[i], out[j] = out[j], out[i]
+	}
+	return out
+}
+
+// panicInScope decides whether a panic injected at a data event of file st models a panic raised
+// inside the operation's own processing code. The event is issued, through the standard library,
+// by the innermost module frame on the stack. If that frame is also on the stack that opened the
+// file, then between opening and finishing the file no code of the module runs below it — the
+// call sits in pure copy plumbing (io.Copy of an in-memory buffer) and a panic there could only
+// come from inside the kernel call, which is not a fault the property talks about.
+func panicInScope(st *fileState, now []string) bool {
+	if st == nil || len(st.stack) == 0 {
+		return true
+	}
+	l := 0
+	for l < len(st.stack) && l < len(now) && st.stack[l] == now[l] {
+		l++
+	}
+	return len(now) > l
 }
 
 var (
@@ -326,6 +371,11 @@ func (s *Sim) pre(ov *os.VerifEvent) (act os.VerifAction) {
 	if st != nil {
 		e.FileID = st.id
 	}
+	if op == "read" || op == "pread" {
+		// reads are addressed by file offset: the order in which pdfcpu dereferences objects follows Go
+		// map iteration and differs from run to run, the set of (offset, n-th read at that offset) does not
+		e.Path = fmt.Sprintf("%s@%d", e.Path, ov.Off)
+	}
 	key := op + "\x00" + e.Path
 	s.occ[key]++
 	e.Occ = s.occ[key]
@@ -350,6 +400,10 @@ func (s *Sim) pre(ov *os.VerifEvent) (act os.VerifAction) {
 			s.enospc = true
 			e.Fault = f.Kind
 		case KPanic:
+			if !panicInScope(st, moduleStack()) {
+				s.OutOfScope++
+				continue
+			}
 			panicNow = true
 			e.Fault = f.Kind
 		case KKill:
@@ -428,7 +482,7 @@ func (s *Sim) post(ov *os.VerifEvent) {
 	case "open":
 		if ov.RErr == nil && ov.RFile != nil {
 			s.nextFID++
-			st := &fileState{abs: e.Raw, id: s.nextFID}
+			st := &fileState{abs: e.Raw, id: s.nextFID, stack: moduleStack()}
 			st.isDir = isDirRaw(e.Raw)
 			s.tracked[ov.RFile] = st
 			e.FileID = st.id
@@ -439,6 +493,10 @@ func (s *Sim) post(ov *os.VerifEvent) {
 	var after string
 	for _, f := range s.Faults {
 		if (f.Kind == KPanicAfter || f.Kind == KKillAfter) && f.Addr.Op == e.Op && f.Addr.Path == e.Path && f.Addr.Occ == e.Occ {
+			if f.Kind == KPanicAfter && ov.File != nil && !panicInScope(s.tracked[ov.File], moduleStack()) {
+				s.OutOfScope++
+				continue
+			}
 			after = f.Kind
 			s.Fired = append(s.Fired, f)
 		}
